@@ -321,7 +321,17 @@ func genPerioConc(root, outdir string) {
 		sort.Strings(fs)
 		rows = append(rows, fmt.Sprintf("  (%s, [%s])", coqStr(n), strings.Join(fs, "; ")))
 	}
-	o.p("Definition perio_access : list (string * list string) := [\n%s\n].", strings.Join(rows, ";\n"))
+	o.p("Definition perio_access : list (string * list string) := [\n%s\n].\n", strings.Join(rows, ";\n"))
+	// the event queue's protocol: calls of put in SOURCE ORDER (the wake-up must come after the append, under the lock), and
+	// whether get re-checks its condition in a loop around Wait
+	order, waitInLoop := queueProtocol(root)
+	var qo []string
+	for _, c := range order {
+		qo = append(qo, coqStr(c))
+	}
+	o.p("(* eventQueue.put: its calls in source order; eventQueue.get: Wait stands inside a for loop *)")
+	o.p("Definition perio_put_order : list string := [%s].", strings.Join(qo, "; "))
+	o.p("Definition perio_get_wait_in_loop : bool := %v.", waitInLoop)
 	writeIfChanged(filepath.Join(outdir, "PerioConcGen.v"), o.b.String())
 }
 
@@ -468,6 +478,46 @@ func genConc(root, outdir string) {
 	}
 	o.p("Definition chan_makes : list (string * string * string) := [\n%s\n].", strings.Join(rows, ";\n"))
 	writeIfChanged(filepath.Join(outdir, "ConcGen.v"), o.b.String())
+}
+
+// queueProtocol reads eventQueue.put / eventQueue.get of perio/server.go (absent in trees whose event queue is a channel)
+func queueProtocol(root string) (order []string, waitInLoop bool) {
+	af := parse(root, "internal/forwarder/perio/server.go")
+	for _, d := range af.Decls {
+		fd, ok := d.(*ast.FuncDecl)
+		if !ok || fd.Body == nil || fd.Recv == nil || len(fd.Recv.List) != 1 || typeName(fd.Recv.List[0].Type) != "eventQueue" {
+			continue
+		}
+		switch fd.Name.Name {
+		case "put":
+			ast.Inspect(fd.Body, func(n ast.Node) bool {
+				if c, ok := n.(*ast.CallExpr); ok {
+					switch f := c.Fun.(type) {
+					case *ast.SelectorExpr:
+						order = append(order, f.Sel.Name)
+					case *ast.Ident:
+						order = append(order, f.Name)
+					}
+				}
+				return true
+			})
+		case "get":
+			ast.Inspect(fd.Body, func(n ast.Node) bool {
+				if fs, ok := n.(*ast.ForStmt); ok {
+					ast.Inspect(fs.Body, func(m ast.Node) bool {
+						if c, ok := m.(*ast.CallExpr); ok {
+							if se, ok := c.Fun.(*ast.SelectorExpr); ok && se.Sel.Name == "Wait" {
+								waitInLoop = true
+							}
+						}
+						return true
+					})
+				}
+				return true
+			})
+		}
+	}
+	return
 }
 
 // chanMakes lists every make(chan T, N) with the field / variable it initialises and its capacity expression
